@@ -296,7 +296,7 @@ where
             return Ok(());
         }
         // Clone the existing enabled interrupts
-        let mut int_config0 = self.device.config.int_config.get_config0();
+        let int_config0 = self.device.config.int_config.get_config0();
         let int_enabled = match &self.config {
             GenIntConfig::Gen1Int(_) => int_config0.gen1_int(),
             GenIntConfig::Gen2Int(_) => int_config0.gen2_int(),
@@ -314,14 +314,16 @@ where
         match &self.config {
             GenIntConfig::Gen1Int(_) => {
                 if int_enabled {
-                    int_config0 = int_config0.with_gen1_int(false);
-                    self.device.interface.write_register(int_config0)?;
+                    let tmp_int_config0 = int_config0.with_gen1_int(false);
+                    self.device.interface.write_register(tmp_int_config0)?;
+                    self.device.config.int_config.set_config0(tmp_int_config0);
                 }
             }
             GenIntConfig::Gen2Int(_) => {
                 if int_enabled {
-                    int_config0 = int_config0.with_gen2_int(false);
-                    self.device.interface.write_register(int_config0)?;
+                    let tmp_int_config0 = int_config0.with_gen2_int(false);
+                    self.device.interface.write_register(tmp_int_config0)?;
+                    self.device.config.int_config.set_config0(tmp_int_config0);
                 }
             }
         }
@@ -459,7 +461,8 @@ where
         }
         // Re-enable interrupt, if it was disabled
         if int_config0.bits() != self.device.config.int_config.get_config0().bits() {
-            self.device.interface.write_register(self.device.config.int_config.get_config0())?;
+            self.device.interface.write_register(int_config0)?;
+            self.device.config.int_config.set_config0(int_config0);
         }
         Ok(())
     }
